@@ -435,6 +435,13 @@ theorem fact_claim_stamped_with_template_hash :
     Karp.Gen.C15Drift.claimHashStamps = [Karp.Gen.C15Drift.claimTemplateParam ++ ".Hash()"] ∧
     Karp.Gen.C15Drift.claimHashVersionStamps = ["v1.NodePoolHashVersion"] := by decide
 
+/-- **building a NodeClaim from a NodePool does not write into the NodePool**: the NodeClaim `NewNodeClaimTemplate` starts
+    from shares its label and annotation maps with the NodePool's template (`v1.NodeClaimTemplate.ToNodeClaim` copies
+    nothing), and the static-capacity code builds several templates from one NodePool object; so the function fills only
+    fresh maps (`lo.Assign`) and contains no in-place write (`m[k] = v`, `delete`, `clear`) at all — what
+    `C15_creation_leaves_nodepool` models, and what c15.drift observes on the NodePool object handed in. -/
+theorem fact_claim_template_never_written_in_place : Karp.Gen.C15Drift.claimTemplateInPlaceWrites = [] := by decide
+
 /-! ## Drift: the sub-reconciler -/
 
 /-- **C15_reconcile_reports** — on a launched NodeClaim, `Drift.Reconcile` sets the Drifted condition whenever the hash
@@ -703,6 +710,85 @@ theorem C15_stale_window_transient :
       (fun out => out.map (fun p => p.1.claims.map (·.drifted))) = some [[none], [some "NodePoolDrifted"]] ∧
     (run wStale [.create "new-0" (wResolved "7") wProviderLabels true, .hashctl, .reconcile "new-0"]).toOption.map
       (fun out => out.map (fun p => p.1.claims.map (·.drifted))) = some [[none], [none], [none]] := by decide
+
+/-! ## Several NodeClaims built from ONE in-memory NodePool object
+
+The static-capacity code builds several NodeClaimTemplates from one NodePool object: `static.provisioning` one per missing
+replica, `StaticDrift.ComputeCommands` one per drifted candidate.  Building a NodeClaim reads the NodePool and must not
+write to it (the template's label map is handed out by `v1.NodeClaimTemplate.ToNodeClaim()` without a copy, so an in-place
+write would change what every later `nodePool.Hash()` on that object returns). -/
+
+/-- **C15_creation_leaves_nodepool** — along every history, of any length, of creations (by any way; a static-capacity
+    controller meeting a NodePool it does not manage does nothing), the NodePool — its template, its annotations — is in
+    every state what it was at the start. -/
+theorem C15_creation_leaves_nodepool (steps : List Step) : ∀ (s : St) (out : List (St × Bool)),
+    (∀ st ∈ steps, creationStep st = true) → run s steps = .ok out →
+    ∀ p ∈ out, p.1.pool = s.pool ∧ p.1.nodeClass = s.nodeClass := by
+  induction steps with
+  | nil =>
+    intro s out _ h p hp
+    simp only [run, pure, Except.pure] at h
+    injection h with h; subst h; cases hp
+  | cons st rest ih =>
+    intro s out hc h p hp
+    simp only [run, bind, Except.bind] at h
+    cases hs : step s st with
+    | error x => rw [hs] at h; simp at h
+    | ok r =>
+      obtain ⟨s1, e⟩ := r
+      rw [hs] at h
+      simp only at h
+      cases hr : run s1 rest with
+      | error x => rw [hr] at h; simp at h
+      | ok tl =>
+        rw [hr] at h
+        simp only [pure, Except.pure] at h
+        injection h with h; subst h
+        have h1 := creationStep_leaves_nodepool s s1 st e (hc st (List.mem_cons_self ..)) hs
+        rcases List.mem_cons.mp hp with hp | hp
+        · subst hp; exact h1
+        · obtain ⟨g1, g2⟩ := ih s1 tl (fun st' hst => hc st' (List.mem_cons_of_mem _ hst)) hr p hp
+          exact ⟨g1.trans h1.1, g2.trans h1.2⟩
+
+/-- **C15_claims_of_one_nodepool_object_share_stamp** — in every state along a batch of creations of any length, by any
+    mix of ways, from the NodePool of state `s`, every NodeClaim with a new name carries the hash of `s`'s template and the
+    current hash version: the second and every further NodeClaim built from one NodePool object is stamped exactly like
+    the first, so (with `C15_created_claim_never_self_drifted`) none of the replicas of a static NodePool is born
+    NodePoolDrifted. -/
+theorem C15_claims_of_one_nodepool_object_share_stamp (s : St) (b : List Creation) (n : String) (out : List (St × Bool))
+    (hnew : ∀ c ∈ s.claims, c.name ≠ n) (hrun : run s (batchSteps s b) = .ok out) :
+    ∀ p ∈ out, p.1.pool = s.pool ∧ ∀ c ∈ p.1.claims, c.name = n → c.ann = stampOf s.pool.pool := by
+  have hcs : ∀ st ∈ batchSteps s b, creationStep st = true := by
+    intro st hst
+    simp only [batchSteps, List.mem_map] at hst
+    obtain ⟨c, _, rfl⟩ := hst
+    exact creationStep_createStep s c
+  intro p hp
+  have hpool := (C15_creation_leaves_nodepool (batchSteps s b) s out hcs hrun p hp).1
+  refine ⟨hpool, ?_⟩
+  intro c hc hn
+  have := C15_created_claim_keeps_template_stamp s n (batchSteps s b) out hnew
+    (fun st hst => creationStep_keepsStamp st (hcs st hst)) hrun p hp c hc hn
+  rw [this, hpool]
+
+/-- on a NodePool the provider manages every way of creation is the creation `createClaim` models -/
+theorem C15_static_batch_of_managed_nodepool_creates (s : St) (v : Via) (n : String) (r p : Karp.Drift.Labels) (l : Bool)
+    (hm : s.poolManaged = true) : createStep s v n r p l = .create n r p l := by
+  simp [createStep, hm]
+
+/-- the static-capacity controllers do nothing for a NodePool they do not manage -/
+theorem C15_static_controllers_skip_unmanaged (s : St) (v : Via) (n : String) (r p : Karp.Drift.Labels) (l : Bool)
+    (hv : v.managedOnly = true) (hm : s.poolManaged = false) : step s (createStep s v n r p l) = .ok (s, false) := by
+  simp [createStep, hv, hm, step, pure, Except.pure]
+
+/-- non-vacuity: replicas of a static NodePool whose template carries a label (the hypotheses of the batch theorem hold
+    and the run succeeds), and an unmanaged NodePool the static controllers skip -/
+example : (run wStale (batchSteps wStale [(.static, "new-0", wResolved "7", wProviderLabels, true),
+      (.staticDrift, "new-1", wResolved "3", wProviderLabels, false)])).toOption.map
+      (fun out => out.map (fun p => p.1.claims.map (fun c => (c.name, c.ann.version, c.launched)))) =
+    some [[("new-0", some currentVersion, true)], [("new-0", some currentVersion, true), ("new-1", some currentVersion, false)]] := by decide
+example : wStale.poolManaged = true ∧ ({ wStale with nodeClass := ("other", "Other") } : St).poolManaged = false := by decide
+
 
 /-! ## Non-vacuity -/
 
